@@ -715,9 +715,8 @@ pub fn corpus() -> Vec<(String, String, Config)> {
     let full = Config { bytemuck_vertex: true, encase: true, serde: true, repr: Repr::Glam, ..Config::default() };
     let mut v: Vec<(String, String, Config)> = vec![];
     for a in crate::c01::atoms(false) {
-        if a.id.starts_with("name|") {
-            continue;
-        }
+        // (naming atoms included: colliding / generator-owned / keyword identifiers make the generator rename, refuse
+        // or panic - whatever it does must not depend on what the process did before)
         v.push((a.id.clone(), a.src.clone(), if a.structs { full } else { Config::default() }));
     }
     for p in crate::c08::space(false).into_iter().step_by(40) {
